@@ -9,6 +9,7 @@ CONSTANTS MaxNames,      \* names per path for the DeepRootForms
           MaxSepLevel,   \* separators "/" (0), "%2F" (1), "%252F" (2)
           RootSel,       \* "all" or one of Roots    (the harness runs one slice per TLC start, in parallel)
           FormSel,       \* "all" or one of Forms
+          DeepAll,       \* TRUE: both DeepRootForms get MaxNames; FALSE: only ("/", relative)
           FirstSel,      \* "all" or the first name of the path
           WithOpen       \* TRUE: also the control-directory-open cases
 SeqsOf(S, n) == [1..n -> S]
@@ -18,7 +19,7 @@ PathShapes(max) ==
                                           ss \in SeqsOf(0..MaxSepLevel, n - 1)} : n \in 1..max}
     \cup (IF FirstSel \in {"all", ""} THEN {[names |-> <<>>, seps |-> <<>>]} ELSE {})
 \* combinations in which a path can get past the root match with few names
-DeepRootForms == {<<"/", "rel">>, <<"/a/", "rooted">>}
+DeepRootForms == IF DeepAll THEN {<<"/", "rel">>, <<"/a/", "rooted">>} ELSE {<<"/", "rel">>}
 NamesFor(rf) == IF rf \in DeepRootForms THEN MaxNames ELSE ShallowNames
 SelRoots == IF RootSel = "all" THEN Roots ELSE {RootSel}
 SelForms == IF FormSel = "all" THEN Forms ELSE {FormSel}
@@ -56,13 +57,15 @@ Verdict(x) == LET s == SpecOut(x) IN
 \* every witness in ONE pass (a TLC start costs seconds): each must be reached by some case
 Reached(W(_)) == \E x \in PathCases \cup OpenCases : W(x)
 WitnessesReached ==
-    /\ Reached(LAMBDA x : x.kind = "path" /\ SpecOut(x).vfs.where = "out")
-    /\ Reached(LAMBDA x : x.kind = "path" /\ SpecOut(x).vfs.where = "in" /\ SpecOut(x).vfsclone.where = "out")
-    /\ Reached(LAMBDA x : x.kind = "path" /\ SpecOut(x).plain.rej = "above-root")
-    /\ Reached(LAMBDA x : x.kind = "path" /\ SpecOut(x).vfs.where = "in" /\ KnownDeviation(x))
-    /\ Reached(LAMBDA x : x.kind = "path" /\ SpecOut(x).vfs.where = "unres")
-    /\ Reached(LAMBDA x : x.kind = "path" /\ SpecOut(x).vfs.rej = "no"
-                          /\ Len(ServedRel(SpecOut(x).vfs.rel)) >= 3 /\ ServedRel(SpecOut(x).vfs.rel)[2] = <<Tok("h", 0)>>)
+    /\ Reached(LAMBDA x : x.kind = "path" /\ KnownDeviation(x) /\ SpecOut(x).vfs.where = "out")
+    /\ Reached(LAMBDA x : x.kind = "path" /\ SlashFirstDeviation(x)
+                          /\ LET s == SpecOut(x) IN s.vfs.where = "in" /\ s.vfsclone.where = "out")
+    /\ Reached(LAMBDA x : x.kind = "path" /\ ".." \in Rng(x.names) /\ SpecOut(x).plain.rej = "above-root")
+    /\ Reached(LAMBDA x : x.kind = "path" /\ KnownDeviation(x) /\ SpecOut(x).vfs.where = "in")
+    /\ Reached(LAMBDA x : x.kind = "path" /\ "U+00E9" \in Rng(x.names) /\ SpecOut(x).vfs.where = "unres")
+    /\ Reached(LAMBDA x : x.kind = "path" /\ "~" \in Rng(x.names)
+                          /\ LET s == SpecOut(x) IN s.vfs.rej = "no" /\ Len(ServedRel(s.vfs.rel)) >= 3
+                                                    /\ ServedRel(s.vfs.rel)[2] = <<Tok("h", 0)>>)
     /\ Reached(LAMBDA x : x.kind = "open" /\ x.scheme = "backing" /\ ~JailAllows(x))
     /\ Reached(LAMBDA x : x.kind = "open" /\ OpenOut(x).where = "out")
     /\ Reached(LAMBDA x : x.kind = "open" /\ x.jail = "a" /\ OpenOut(x).where = "in")
